@@ -18,7 +18,8 @@ HasChecker(k) == k \in {"CS", "CF", "XS", "XF"}
 CheckerFails(k) == k \in {"XS", "XF"}
 Succeeds(k) == k \in {"S", "CS", "XS"}
 
-Topics == {"ta", "tb"}            \* ta: partition count set with SetPartitions, tb: SetDefaultPartitions
+Topics == {"ta", "tb", "tc"}
+DefaultPartitions == 32           \* NewTopicConfig: every topic has 32 partitions until told otherwise
 NoKey == "-"
 
 \* int32(fnv1a(key)) of the two keys the harness uses (hash/fnv.New32a, what NewHashPartitioner uses)
@@ -35,20 +36,27 @@ ErrId(prefix, id) == prefix \o ToString(id)
 
 -----------------------------------------------------------------------------
 (* ---------------- producer mocks ----------------
-   cf = [mode: "async"|"sync", pk: "manual"|"hash"|"rr", np: [ta |-> n, tb |-> n], rets: BOOLEAN,
-         quirks: BOOLEAN]
-   ps = [exps: Seq([kind, id]), nexp, last (offset counter), cur: [ta, tb] round-robin cursors,
-         closed]
+   cf = [mode: "async"|"sync", pk: "manual"|"hash"|"rr", np: [ta |-> a, tb |-> d], rets: BOOLEAN,
+         quirks: BOOLEAN]   np.ta = count given to topic ta with SetPartitions when the mock is created
+                            (0: no such call), np.tb = SetDefaultPartitions value (32: no such call)
+   ps = [exps: Seq([kind, id]), nexp, last (offset counter), cur: per-topic round-robin cursors,
+         ov: per-topic partition-count overrides of TopicConfig (0 = none), closed]
    m  = [mid, topic, key, mpart]                                                         *)
 
-PInit == [exps |-> <<>>, nexp |-> 0, last |-> 0, cur |-> [ta |-> 0, tb |-> 0], closed |-> FALSE]
+PInit0(npa) == [exps |-> <<>>, nexp |-> 0, last |-> 0, cur |-> [ta |-> 0, tb |-> 0, tc |-> 0],
+                ov |-> [ta |-> npa, tb |-> 0, tc |-> 0], closed |-> FALSE]
+
+\* TopicConfig.SetPartitions(map[string]int32{t: n}): adds / replaces the override of t, keeps the others
+PSetParts(ps, t, n) == [ps EXCEPT !.ov[t] = n]
+\* TopicConfig.partitions(t): the override if there is one, else the default
+NP(cf, ps, t) == IF ps.ov[t] > 0 THEN ps.ov[t] ELSE cf.np.tb
 
 PExpect(ps, kind) ==
   [ps EXCEPT !.exps = Append(@, [kind |-> kind, id |-> ps.nexp + 1]), !.nexp = @ + 1]
 
 \* partitions the configured partitioner may choose for m over the configured partition count
 AllowedParts(cf, ps, m) ==
-  LET n == cf.np[m.topic] IN
+  LET n == NP(cf, ps, m.topic) IN
   CASE cf.pk = "manual" -> {m.mpart}
     [] cf.pk = "hash" -> IF m.key = NoKey THEN 0..(n - 1) ELSE {HashPart(m.key, n)}
     [] cf.pk = "rr" -> {IF ps.cur[m.topic] >= n THEN 0 ELSE ps.cur[m.topic]}
